@@ -174,3 +174,83 @@ contract(
     min_obligations=0,
     note="S-12 (fixed by 56239b0): UnboundLocalError (attrs) instead of RuntimeError when free space is insufficient",
 )
+
+
+# ---------------------------------------------------------------------------------------------
+# Tall matrices (C05, C06): more rows than any plausible internal block size (4096, 8192, 10000),
+# iterated with chunk sizes that do not divide it.  Bounded: real CSR / CSC / dense h5ad files of
+# 5 000 - 10 007 rows x 3 columns; every chunk of the iteration equals the stored rows.
+# ---------------------------------------------------------------------------------------------
+_TALL = {}
+
+
+def _tall_file(n_rows, enc):
+    import atexit
+    import os
+    import shutil
+    import tempfile
+    import numpy as np
+    import anndata
+    import pandas as pd
+    import scipy.sparse as sp
+    if 'dir' not in _TALL:
+        _TALL['dir'] = tempfile.mkdtemp(prefix='verif_tall_', dir='/tmp')
+        atexit.register(shutil.rmtree, _TALL['dir'], True)
+    key = (n_rows, enc)
+    if key not in _TALL:
+        X = np.zeros((n_rows, 3))
+        idx = np.arange(n_rows)
+        X[:, 0] = idx % 7
+        X[:, 1] = (idx // 4096) + 1.0          # differs from block to block
+        X[idx % 5 == 0, 2] = idx[idx % 5 == 0] % 11 + 0.5
+        X[idx % 13 == 0, :] = 0.0              # empty rows
+        Mx = X if enc == 'dense' else (sp.csr_matrix(X) if enc == 'csr' else sp.csc_matrix(X))
+        a = anndata.AnnData(X=Mx, obs=pd.DataFrame(index=[f'c{i}' for i in range(n_rows)]),
+                            var=pd.DataFrame(index=['g0', 'g1', 'g2']))
+        p = os.path.join(_TALL['dir'], f'tall_{os.getpid()}_{n_rows}_{enc}.h5ad')
+        a.write_h5ad(p)
+        _TALL[key] = (p, X)
+    return _TALL[key]
+
+
+def _iterate_tall(n_rows, enc, chunk):
+    """-> number of rows whose values differ from the stored matrix (or that are missing / repeated)"""
+    import tempfile
+    import numpy as np
+    from cell_type_mapper.anndata_iterator.anndata_iterator import AnnDataRowIterator
+    p, X = _tall_file(n_rows, enc)
+    tmp = tempfile.mkdtemp(prefix='it_', dir=_TALL['dir'])
+    it = AnnDataRowIterator(h5ad_path=p, row_chunk_size=chunk, layer='X', tmp_dir=tmp, max_gb=1)
+    bad = 0
+    expected_r0 = 0
+    for block, r0, r1 in it:
+        block = np.asarray(block)
+        if r0 != expected_r0 or block.shape != (r1 - r0, 3):
+            return n_rows
+        bad += int((np.abs(block - X[r0:r1]).max(axis=1) > 0).sum()) if r1 > r0 else 0
+        expected_r0 = r1
+    del it
+    return bad + (n_rows - expected_r0)
+
+
+_TALL_N = [0]
+
+
+def _gen_tall(rng, size):
+    _TALL_N[0] += 1
+    cases = [(5000, 'csr', 1000), (5000, 'csr', 1024), (10007, 'csr', 4097), (5000, 'csc', 1000),
+             (8200, 'csr', 3000), (5000, 'dense', 1000), (10007, 'csc', 2500), (8200, 'dense', 4095)]
+    n, enc, ch = cases[_TALL_N[0] % len(cases)]
+    return dict(n_rows=n, enc=enc, chunk=ch)
+
+
+contract(
+    M + 'AnnDataRowIterator.__next__#tall',
+    properties=['C05', 'C06'], mode='bounded',
+    native=dict(call=_iterate_tall, gen=_gen_tall, weight=0.04,
+                bound='files of 5 000 / 8 200 / 10 007 rows x 3 columns (CSR, CSC, dense), chunk sizes 1000, 1024, 2500, '
+                      '3000, 4095, 4097: 8 combinations'),
+    params=dict(n_rows='Int', enc='Name', chunk='Int'),
+    returns='Int',
+    ensures=["result == 0"],
+)
